@@ -125,7 +125,7 @@ Record request := mkQ {
   q_hash : nat -> key;                     (* req.hash after vcl_hash, by req.restarts *)
   q_backend : bool;                        (* a backend is determined *)
   q_bresp : nat -> option (bool * Z);      (* backend answer: (beresp.cacheable, beresp.ttl) as vcl_fetch leaves them; None = fetch fails *)
-  q_hit_ttl : nat -> Z;                    (* obj.ttl as vcl_hit leaves it; <= 0: untouched *)
+  q_hit_ttl : nat -> option Z;             (* what vcl_hit assigns to obj.ttl, if it does *)
   q_ops : nat -> list op                   (* rate-limit calls at the top of vcl_recv *)
 }.
 
@@ -141,14 +141,15 @@ Record ctx := mkC {
   c_beresp : bool;           (* ctx.BackendResponse != nil *)
   c_resp : option xst;       (* ctx.Response != nil, with its X-Cache header *)
   c_trace : list event;      (* process.Flows, newest first *)
-  c_obs : list Z             (* values logged by the rate-limit calls, newest first *)
+  c_obs : list Z;            (* values logged by the rate-limit calls, newest first *)
+  c_objttl : Z               (* ctx.ObjectTTL: stays for the rest of the request once vcl_hit has set it *)
 }.
-Definition ctx0 : ctx := mkC 0 XNone false false false None [] [].
+Definition ctx0 : ctx := mkC 0 XNone false false false None [] [] 0.
 
 Definition call (orc : oracle) (n : dnode) (c : ctx) : ctx * option state :=
   let a := orc (scope_of n) (c_restarts c) in
   (mkC (c_restarts c) (c_state c) (c_cached c) (c_obj c) (c_beresp c) (c_resp c)
-       ((n, c_restarts c, a) :: c_trace c) (c_obs c),
+       ((n, c_restarts c, a) :: c_trace c) (c_obs c) (c_objttl c),
    run_sub (scope_of n) (c_restarts c) a).
 
 Inductive node := NRecv | NHit | NMiss | NPass | NFetch | NError | NDeliver | NLog.
@@ -157,18 +158,20 @@ Inductive next := Goto (n : node) | Done | Fail.
 (* Interpreter.restart *)
 Definition do_restart (c : ctx) : ctx * next :=
   if max_varnish_restarts <? c_restarts c + 1 then (c, Fail)
-  else (mkC (S (c_restarts c)) (c_state c) (c_cached c) false false None (c_trace c) (c_obs c), Goto NRecv).
+  else (mkC (S (c_restarts c)) (c_state c) (c_cached c) false false None (c_trace c) (c_obs c) (c_objttl c), Goto NRecv).
 
 Definition set_branch (c : ctx) (x : xst) (cached : bool) : ctx :=
-  mkC (c_restarts c) x cached (c_obj c) (c_beresp c) (c_resp c) (c_trace c) (c_obs c).
+  mkC (c_restarts c) x cached (c_obj c) (c_beresp c) (c_resp c) (c_trace c) (c_obs c) (c_objttl c).
 Definition set_obj (c : ctx) : ctx :=
-  mkC (c_restarts c) (c_state c) (c_cached c) true (c_beresp c) (c_resp c) (c_trace c) (c_obs c).
+  mkC (c_restarts c) (c_state c) (c_cached c) true (c_beresp c) (c_resp c) (c_trace c) (c_obs c) (c_objttl c).
 Definition set_beresp (c : ctx) : ctx :=
-  mkC (c_restarts c) (c_state c) (c_cached c) (c_obj c) true (c_resp c) (c_trace c) (c_obs c).
+  mkC (c_restarts c) (c_state c) (c_cached c) (c_obj c) true (c_resp c) (c_trace c) (c_obs c) (c_objttl c).
 Definition set_resp (c : ctx) : ctx :=
-  mkC (c_restarts c) (c_state c) (c_cached c) (c_obj c) (c_beresp c) (Some (c_state c)) (c_trace c) (c_obs c).
+  mkC (c_restarts c) (c_state c) (c_cached c) (c_obj c) (c_beresp c) (Some (c_state c)) (c_trace c) (c_obs c) (c_objttl c).
 Definition add_obs (c : ctx) (o : list Z) : ctx :=
-  mkC (c_restarts c) (c_state c) (c_cached c) (c_obj c) (c_beresp c) (c_resp c) (c_trace c) (rev o ++ c_obs c).
+  mkC (c_restarts c) (c_state c) (c_cached c) (c_obj c) (c_beresp c) (c_resp c) (c_trace c) (rev o ++ c_obs c) (c_objttl c).
+Definition set_objttl (c : ctx) (t : Z) : ctx :=
+  mkC (c_restarts c) (c_state c) (c_cached c) (c_obj c) (c_beresp c) (c_resp c) (c_trace c) (c_obs c) t.
 Definition set_cache (p : persistent) (cch : cache) : persistent := mkP cch (p_rc p) (p_pb p).
 
 (* ProcessHash: only `hash` or falling off the end is accepted *)
@@ -202,12 +205,13 @@ Definition process_recv (orc : oracle) (q : request) (c : ctx) (p : persistent) 
 
 Definition process_hit (orc : oracle) (q : request) (c : ctx) (p : persistent) : ctx * persistent * next :=
   let r0 := c_restarts c in
-  let (c1, r) := call orc DHit c in
+  let (c0, r) := call orc DHit c in
+  let c1 := match q_hit_ttl q r0 with Some t => set_objttl c0 t | None => c0 end in
   match r with
   | None => (c1, p, Fail)
   | Some st =>
-      let p1 := if (0 <? q_hit_ttl q r0)%Z
-                then set_cache p (cache_retime (q_hash q r0) (q_hit_ttl q r0) (p_cache p)) else p in
+      let p1 := if (0 <? c_objttl c1)%Z
+                then set_cache p (cache_retime (q_hash q r0) (c_objttl c1) (p_cache p)) else p in
       match st with
       | NONE | St SDeliver => (c1, p1, Goto NDeliver)
       | St SPass => (c1, p1, Goto NPass)
